@@ -348,7 +348,8 @@ func c14Alphabet(thorough bool) []c14Inv {
 	add([]string{"BIG"}, "extract", "5..44000")
 	add([]string{"BIGFA"}, "rotate", "7")
 	// the output format taken from the extension of the -o path (no -F)
-	for _, c := range [][]string{{"extract", "2..5"}, {"reverse"}, {"clear"}, {"delete", "2..5"}, {"rotate", "3"}, {"select", "gene"}, {"insert", "3", "@ttt"}, {"define", "gene", "2..5"}, {"sort"}, {"search", "@acg"}} {
+	for _, c := range [][]string{{"extract", "2..5"}, {"reverse"}, {"clear"}, {"delete", "2..5"}, {"rotate", "3"}, {"select", "gene"}, {"insert", "3", "@ttt"}, {"define", "gene", "2..5"}, {"sort"}, {"search", "@acg"},
+		{"complement"}, {"repair"}, {"infix", "3", "FILE:host1.gb"}, {"annotate", "FILE:ft1.txt"}, {"pick", "1"}, {"join"}, {"split", "3"}} {
 		add(a, append(append([]string{c[0]}, "-o", "OUT.fasta"), c[1:]...)...)
 		if c[0] != "extract" && c[0] != "reverse" && c[0] != "clear" {
 			add(a, append(append([]string{c[0]}, "-o", "OUT.gb"), c[1:]...)...)
